@@ -103,6 +103,28 @@ def rule_a_b(repo, chk):
                     caught |= set(names) if names else {'*'}
                 chk.ob('a', f.ref, f'no exception of `{nm}` (malformed, undecodable or unsupported credentials) can leave check_auth: it is refused instead',
                        bool(caught & {'*', 'Exception', 'BaseException'}), loc(f, c), detail=f'handlers around the call: {sorted(caught)}', discr=f'no-escape:{nm.split(".")[-1]}')
+    # the fallback encoder must fit what the Basic parser hands over (decoded text): writer/reader agreement on the type
+    bp = repo.try_func('circuits/web/_httpauth.py', '_parseBasicAuthorization')
+    text_pw = bp is not None and any(isinstance(n, ast.Assign) and src(n.targets[0]) == 'password' and '.decode(' in src(n.value) for n in walk_no_defs(bp.node))
+    fb = None
+    for n in g.nodes:
+        if n.kind == 'stmt' and isinstance(n.ast, ast.Assign) and src(n.ast.targets[0]) == f.params[4]:
+            fb = ('assign', n.ast.value, n)
+    for nf in f.nested.values():
+        if nf.name == f.params[4]:
+            fb = ('def', nf, None)
+    if fb is not None:
+        if fb[0] == 'def':
+            body_src = src(fb[1].node)
+            encodes = any(isinstance(c.func, ast.Attribute) and c.func.attr == 'encode' and src(c.func.value) in fb[1].params for c in calls_in(fb[1].node))
+            where = loc(f, fb[1].node)
+        else:
+            v = fb[1]
+            encodes = isinstance(v, ast.Lambda) and any(isinstance(c, ast.Call) and isinstance(c.func, ast.Attribute) and c.func.attr == 'encode' for c in ast.walk(v)) \
+                or src(v) in ('str',)
+            where = loc(f, fb[2].ast)
+        chk.ob('a', f.ref, 'the encoder used when none is configured takes the text password the Basic parser produces (it encodes before hashing)',
+               encodes or not text_pw, where, discr='default-encoder-takes-text')
     # login recorded only on success
     logins = [n for n in g.nodes if n.kind == 'stmt' and f.params[0] in pat.stores_attr(n.ast, 'login') and not (isinstance(n.ast.value, ast.Constant) and not n.ast.value.value)]
     for n in logins:
@@ -239,6 +261,21 @@ def rule_d(repo, chk):
                     deps |= {src(x) for x in ast.walk(e) if isinstance(x, (ast.Attribute, ast.Constant, ast.Name))}
     ok = any('remote.ip' in d for d in deps) and any("User-Agent" in d for d in deps) and any('sha' in src(r.value) for r in rets)
     chk.ob('d', w.ref, 'the fingerprint is a hash over the remote address and the User-Agent header', ok, loc(w, w.node), discr='fingerprint-inputs')
+    # the hashed text is an injective encoding of the (address, agent) pair: plain concatenation of two free-form strings is not
+    amb = None
+    for r in rets:
+        for e in ast.walk(r.value):
+            if isinstance(e, ast.JoinedStr):
+                parts = e.values
+                for a_, b_ in zip(parts, parts[1:]):
+                    if isinstance(a_, ast.FormattedValue) and isinstance(b_, ast.FormattedValue):
+                        amb = amb or e
+            if isinstance(e, ast.BinOp) and isinstance(e.op, ast.Add) and isinstance(e.left, ast.Name) and isinstance(e.right, ast.Name):
+                amb = amb or e
+            if isinstance(e, ast.BinOp) and isinstance(e.op, ast.Mod) and isinstance(e.left, ast.Constant) and isinstance(e.left.value, str) and '%s%s' in e.left.value:
+                amb = amb or e
+    chk.ob('d', w.ref, 'address and User-Agent are hashed with a separator between them (two different pairs never give the same text)', amb is None,
+           loc(w, amb if amb is not None else w.node), detail=src(amb)[:80] if amb is not None else '', discr='fingerprint-unambiguous')
     st_cls = repo.cls(WEB_SESSIONS, 'MemoryStore')
     n_idx = 0
     for mname in ('load', 'save', 'delete'):
